@@ -47,9 +47,9 @@ func c02Setup(rc *RunCtx) simrt.Config {
 	cfg, sname := drawSimConfig(r, 20000)
 	c := &c02cfg{}
 	c.kind = TransportKind(r.Choose(6))
-	c.callers = 1 + r.Choose(4)
+	c.callers = 1 + r.Choose(widen(4, 8))
 	for i := 0; i < c.callers; i++ {
-		c.perCall = append(c.perCall, 1+r.Choose(3))
+		c.perCall = append(c.perCall, 1+r.Choose(widen(3, 6)))
 		// Far deadlines, plus short ones chosen from the server's latency set so that
 		// OTHER callers' contexts end at the very instant a reply arrives (a call
 		// whose own context has ended by then is outside the property).
